@@ -115,7 +115,13 @@ class Unclassified(Exception):
     pass
 
 
+def unhint(line):
+    """drop the break hints of write_continue (TAB; the blank after a hinted position stays a single blank)"""
+    return re.sub(r" {2,}", " ", line.replace("\t", "")).strip()
+
+
 def classify(line):
+    line = unhint(line)
     if not SUSPICIOUS.search(line):
         return ("N", 0)
     for rx, k, c in PATTERNS:
